@@ -17,6 +17,10 @@ use crate::{
     variable_assigment::VariableAssignment,
 };
 
+/// The number of variable pointers that are followed from one variable to the
+/// next before giving up.
+const MAX_POINTER_CHAIN: usize = 64;
+
 #[derive(Clone)]
 pub(crate) struct VariablesState {
     pub global_variables: HashMap<String, Rc<Value>>,
@@ -58,9 +62,9 @@ impl VariablesState {
         // notifications for changed variables all in one go.
         if let Some(changed_variables_for_batch_obs) = self.changed_variables_for_batch_obs.take() {
             for variable_name in changed_variables_for_batch_obs {
-                let current_value = self.global_variables.get(&variable_name).unwrap();
-
-                changed_vars.insert(variable_name, current_value.value.clone());
+                if let Some(current_value) = self.global_variables.get(&variable_name) {
+                    changed_vars.insert(variable_name, current_value.value.clone());
+                }
             }
         }
 
@@ -122,7 +126,9 @@ impl VariablesState {
             // Assign to an existing variable pointer
             // Then assign to the variable that the pointer is pointing to by name.
             // De-reference variable reference to point to
-            loop {
+            // (a chain of pointers is followed MAX_POINTER_CHAIN times at most:
+            // a malformed story document or save can make them circular)
+            for _ in 0..MAX_POINTER_CHAIN {
                 let existing_pointer = self.get_raw_variable_with_name(&name, context_index);
 
                 match existing_pointer {
@@ -316,19 +322,25 @@ impl VariablesState {
     }
 
     pub fn get_variable_with_name(&self, name: &str, context_index: i32) -> Option<Rc<Value>> {
-        let var_value = self.get_raw_variable_with_name(name, context_index);
-        // Get value from pointer?
-        if let Some(vv) = var_value.clone()
-            && let Some(var_pointer) = Value::get_value::<&VariablePointerValue>(vv.as_ref())
-        {
-            return self.value_at_variable_pointer(var_pointer);
+        let mut name = name.to_string();
+        let mut context_index = context_index;
+
+        // Get value from pointer? A chain of pointers is followed for
+        // MAX_POINTER_CHAIN look-ups at most (a malformed story document or
+        // save can make them circular); beyond that nothing is found.
+        for _ in 0..MAX_POINTER_CHAIN {
+            let var_value = self.get_raw_variable_with_name(&name, context_index)?;
+
+            match Value::get_value::<&VariablePointerValue>(var_value.as_ref()) {
+                Some(var_pointer) => {
+                    name = var_pointer.variable_name.to_string();
+                    context_index = var_pointer.context_index;
+                }
+                None => return Some(var_value),
+            }
         }
 
-        var_value
-    }
-
-    fn value_at_variable_pointer(&self, pointer: &VariablePointerValue) -> Option<Rc<Value>> {
-        self.get_variable_with_name(&pointer.variable_name, pointer.context_index)
+        None
     }
 
     pub fn set_callstack(&mut self, callstack: Rc<RefCell<CallStack>>) {
